@@ -33,6 +33,11 @@ def suite_green(wt):
 
 
 def demo(wt):
+    if os.path.exists(os.path.join(wt, "demo.sh")):
+        # a demonstration that needs several build configurations brings its own script
+        p = sh("cd %s && timeout 600 sh ./demo.sh >demo.out 2>&1; echo EXIT=$?; tail -3 demo.out" % wt)
+        m = re.search(r"EXIT=(\d+)", p.stdout)
+        return (int(m.group(1)) if m else -1), p.stdout.strip()[-400:]
     if not os.path.exists(os.path.join(wt, "demo.c")):
         return None, "no demo.c"
     p = sh("make -C %s clean all >/dev/null 2>&1; gcc -std=gnu99 -Wno-unused -I %s/include %s/demo.c %s/libCello.a -lpthread -lm -o %s/demo 2>&1 | tail -3; "
@@ -102,8 +107,9 @@ def main():
         d = os.path.join(VERIF, "seeded", name)
         os.makedirs(d, exist_ok=True)
         open(os.path.join(d, "patch.diff"), "w").write(diff)
-        if os.path.exists(os.path.join(wt, "demo.c")):
-            shutil.copy(os.path.join(wt, "demo.c"), os.path.join(d, "demo.c"))
+        for fn in ("demo.c", "demo.sh"):
+            if os.path.exists(os.path.join(wt, fn)):
+                shutil.copy(os.path.join(wt, fn), os.path.join(d, fn))
         meta = {"breaks_property": pid, "needs_to_manifest": needs,
                 "base_commit": sh("git -C %s rev-parse --short HEAD" % wt).stdout.strip(),
                 "confirmed": {"suite_green_with_change": info["suite_green_with_change"],
